@@ -6,6 +6,7 @@
 From Coq Require Import NArith List.
 From SkV Require Import NodeModel NodeProofs.
 From SkV Require Bytes Codec Ledger Validate PoolLink.
+From SkV Require ConcurrencyProofs.
 Import ListNotations.
 
 Theorem C13_invariant_step : forall skip tx_valid_at tx_conflict,
@@ -49,9 +50,43 @@ Theorem C13_invariant_step_concrete : forall skip verify tx_of utxo_at s e s' o,
   PoolInv (PoolLink.valid_at_real verify tx_of utxo_at) (PoolLink.conflict_real tx_of) s'.
 Proof. exact PoolLink.pool_inv_step_real. Qed.
 
+(* two threads (network thread admitting transactions, miner thread installing heads) over the shared state and one lock,
+   small-step interleaving semantics: when every admission and every head installation is a critical section, every
+   complete interleaving equals running SOME merge of the two threads' sections through the sequential handlers, hence
+   keeps the invariant; with the validation hoisted out of the critical section an interleaving breaks it *)
+Theorem C13_locked_threads_linearise : forall tx_valid_at tx_conflict s f0 f1 l0 l1 c,
+  ConcurrencyProofs.csteps tx_valid_at tx_conflict
+    (s, None, (f0, ConcurrencyProofs.prog_of l0), (f1, ConcurrencyProofs.prog_of l1)) c ->
+  ConcurrencyProofs.finished c ->
+  exists l, ConcurrencyProofs.merge l0 l1 l /\
+            ConcurrencyProofs.shared c = ConcurrencyProofs.run_secs tx_valid_at tx_conflict s l.
+Proof. exact ConcurrencyProofs.locked_threads_linearise. Qed.
+
+Theorem C13_locked_threads_preserve_invariant : forall tx_valid_at tx_conflict,
+  (forall a b, tx_conflict a b = tx_conflict b a) ->
+  forall s f0 f1 l0 l1 c, PoolInv tx_valid_at tx_conflict s ->
+  ConcurrencyProofs.csteps tx_valid_at tx_conflict
+    (s, None, (f0, ConcurrencyProofs.prog_of l0), (f1, ConcurrencyProofs.prog_of l1)) c ->
+  ConcurrencyProofs.finished c -> PoolInv tx_valid_at tx_conflict (ConcurrencyProofs.shared c).
+Proof. exact ConcurrencyProofs.locked_threads_preserve_PoolInv. Qed.
+
+Theorem C13_unlocked_admission_refuted :
+  exists (tx_valid_at tx_conflict : N -> N -> bool),
+    (forall a b, tx_conflict a b = tx_conflict b a) /\
+    exists s t ok blocks head v c,
+      PoolInv tx_valid_at tx_conflict s /\
+      ConcurrencyProofs.csteps tx_valid_at tx_conflict
+             (s, None, (false, ConcurrencyProofs.prog_admit_unlocked t ok), (false, ConcurrencyProofs.prog_set blocks head v)) c /\
+      ConcurrencyProofs.finished c /\
+      ~ PoolInv tx_valid_at tx_conflict (ConcurrencyProofs.shared c).
+Proof. exact ConcurrencyProofs.unlocked_admission_refuted. Qed.
+
 Print Assumptions C13_invariant_step_concrete.
 Print Assumptions C13_invariant_step.
 Print Assumptions C13_invariant_run.
 Print Assumptions C13_admission.
 Print Assumptions C13_eviction_exact.
 Print Assumptions C13_tx_relayed_only_on_admission.
+Print Assumptions C13_locked_threads_linearise.
+Print Assumptions C13_locked_threads_preserve_invariant.
+Print Assumptions C13_unlocked_admission_refuted.
